@@ -334,6 +334,21 @@ def send_path_job(args):
             loop.fire_timers()
             loop.settle()
             ok = expect(k0, ref_ash.enc_data(frm, 1, ack, payload), "repeat after the acknowledgement timeout", payload) and ok
+            # while the send is suspended the receiver writes frames of its own (a repeated copy of the last accepted DATA frame is
+            # acknowledged again, an out-of-sequence frame is refused); the next repeat must still be the DATA frame
+            k0 = len(tr.writes)
+            proto.data_received(ref_ash.wire(ref_ash.enc_data((ack - 1) % 8, 1, frm, b"\x0a\x0b\x0c\x0d")))
+            loop.settle()
+            expect(k0, ref_ash.enc_ack(ack), "ACK for a repeated copy of the last accepted DATA frame (send suspended)", payload)
+            if i % 2:
+                k0 = len(tr.writes)
+                proto.data_received(ref_ash.wire(ref_ash.enc_data((ack + 3) % 8, 0, frm, b"\x0e\x0e\x0e\x0e")))
+                loop.settle()
+                expect(k0, ref_ash.enc_nak(ack), "NAK for an out-of-sequence DATA frame (send suspended)", payload)
+            k0 = len(tr.writes)
+            loop.fire_timers()
+            loop.settle()
+            ok = expect(k0, ref_ash.enc_data(frm, 1, ack, payload), "repeat after the receiver wrote a frame of its own", payload) and ok
             proto.data_received(ref_ash.wire(ref_ash.enc_ack((frm + 1) % 8)))
             loop.settle()
             if not task.done() or task.exception() is not None:
